@@ -112,7 +112,7 @@ func (e *Engine) registerStructFields(key string, t types.Type, v SV, st *State)
 			e.registerStructFields(fk, f.Type(), sv.F[i], st)
 		case *types.Pointer:
 			e.vc.addModelTerm(e.flatten(f.Type(), sv.F[i])[0], fk+":")
-			if _, isS := ft.Elem().Underlying().(*types.Struct); isS && strings.Count(key, ":deref") < 3 {
+			if _, isS := ft.Elem().Underlying().(*types.Struct); isS && strings.Count(key, ":deref") < 2 && isRepoType(ft.Elem()) {
 				func() {
 					defer func() { recover() }()
 					ref := e.flatten(f.Type(), sv.F[i])[0]
@@ -670,4 +670,13 @@ func (e *Engine) replayWithTemplate(o *Obligation, fn *ssa.Function, tmpl string
 		res.log += "\nverdict: the real code does not exhibit the violation on this input (model not confirmed)"
 	}
 	return res
+}
+
+func isRepoType(t types.Type) bool {
+	n, ok := types.Unalias(t).(*types.Named)
+	if !ok || n.Obj().Pkg() == nil {
+		return false
+	}
+	p := n.Obj().Pkg().Path()
+	return strings.HasPrefix(p, modPath) && !strings.HasSuffix(p, "pb")
 }
